@@ -12,6 +12,7 @@ import (
 	"strings"
 
 	"github.com/anoideaopen/foundation/core"
+	"github.com/anoideaopen/foundation/core/ledger"
 	"github.com/anoideaopen/foundation/core/types"
 	"github.com/anoideaopen/foundation/core/types/big"
 	fpb "github.com/anoideaopen/foundation/proto"
@@ -189,6 +190,12 @@ func runScriptOn(stub shim.ChaincodeStubInterface, script string) (string, error
 			_ = stub.PurgePrivateData("coll", arg(1))
 		case "pvp":
 			_ = stub.SetPrivateDataValidationParameter("coll", arg(1), []byte("ep"))
+		case "acct":
+			// one accounting record (what a balance move reports): fixed parties, the given amount
+			if a, ok := stub.(ledger.Accounting); ok {
+				n, _ := strconv.ParseInt(arg(1), 10, 64)
+				a.AddAccountingRecord("TT", types.AddrFromBytes(make([]byte, 32)), types.AddrFromBytes(make([]byte, 32)), big.NewInt(n), "script")
+			}
 		case "fail":
 			return "", errors.New("script failure")
 		case "panic":
